@@ -53,6 +53,10 @@ def blocks(tier):
     nd = sum(1 for _ in forests_upto(ND, 3))
     for fi in range(nd):
         yield ("dev", fi)
+    # object API: regenerate after moving a question to another section of the same survey object
+    na = sum(1 for _ in forests_upto(4 if tier == "quick" else 5, 3))
+    for fi in range(na):
+        yield ("api", fi)
 
 
 def _forest(fi):
@@ -66,6 +70,17 @@ def expand(block, tier):
     forest = _forest(block[1])
     fj = forest_to_json(forest)
     n = len(flatten(forest, NAMES))
+    if block[0] == "api":
+        nodes = flatten(forest, NAMES)
+        for feat in (0, 3):
+            for nd_ in nodes:
+                if nd_["kind"] != "q":
+                    continue
+                for tgt in [None, *[x["i"] for x in nodes if x["kind"] != "q"]]:
+                    if tgt == nd_["parent"]:
+                        continue
+                    yield {"f": fj, "feat": feat, "st": 0, "dev": None, "move": [nd_["i"], tgt]}
+        return
     if block[0] == "default":
         for feat in range(6):
             for st in (0, 1):
@@ -228,7 +243,52 @@ def closure_problems(obs):
     return pr
 
 
+def _find(el, name):
+    for c in getattr(el, "children", None) or ():
+        if c.name == name:
+            return c
+        r = _find(c, name)
+        if r is not None:
+            return r
+    return None
+
+
+def check_api(case):
+    """to_xml, move one question to another section with add_child, to_xml again: the second XForm must be closed too"""
+    wb, nodes, info, names = build(case)
+    out = run_convert(wb)
+    ntr = len(wb["survey"]) + 2
+    if out.kind != "ok":
+        return {"outcome": f"api-{out.kind}", "nt": False, "viol": [], "tr": ntr}
+    i, tgt = case["move"]
+    sv = out.result._survey
+    try:
+        sv.to_xml(validate=False, pretty_print=False)
+        el = _find(sv, names[i])
+        new_parent = sv if tgt is None else _find(sv, names[tgt])
+        if el is None or new_parent is None or not hasattr(new_parent, "add_child"):
+            return {"outcome": "api-not-applicable", "nt": False, "viol": [], "tr": ntr}
+        el.parent.children.remove(el)
+        new_parent.add_child(el)
+        x2 = sv.to_xml(validate=False, pretty_print=False)
+    except Exception as e:  # noqa: BLE001 - the object API may refuse the move (references, triggers): not a verdict
+        return {"outcome": "api-refused", "nt": False, "viol": [], "tr": ntr, "why": f"{type(e).__name__}: {e}"[:120]}
+    viol = []
+    try:
+        obs = O.Obs(x2)
+    except O.ParseFailure as e:
+        return {"outcome": "api-ok", "nt": False, "viol": [("api-move:unparseable", str(e))], "tr": ntr}
+    for kind, detail in closure_problems(obs):
+        viol.append((f"api-move:{kind}", detail))
+    want = "/data/" + "/".join(([] if tgt is None else nodes[tgt]["path"][1:]) + [names[i]])
+    if want not in obs.paths or not any(b.get("nodeset") == want for b in obs.model.findall(O.X + "bind")):
+        viol.append(("api-move:moved-node-not-bound-at-its-new-path", want))
+    return {"outcome": "api-ok", "nt": not viol, "viol": viol[:4], "tr": ntr}
+
+
 def check_one(case):
+    if case.get("move"):
+        return check_api(case)
     wb, nodes, info, names = build(case)
     out = run_convert(wb)
     ntr = len(wb["survey"])
